@@ -408,6 +408,9 @@ int strToInt(GenState &gs, Node *c) {
 
 int strToIntSilent(Node *c) {
   long v = std::strtol(c->tok.c_str(), NULL, 10);
+  // the range error is reported by strToInt(); keep the value representable so
+  // that negating it for 'id - int' is defined
+  if (v > INT_MAX) v = INT_MAX;
   return v;
 }
 
